@@ -134,7 +134,9 @@ _DOCS = {}
 def documents(tier="quick"):
     if tier not in _DOCS:
         _DOCS[tier] = gdocs.docs(2 if tier == "quick" else 3) + gdocs.kinds() + [
-            deep_doc(3), {"a": deep_doc(120)}, deep_doc(101), deep_doc(100), {"a": [1, {"a": 2}], "b": {"a": [0]}}]
+            deep_doc(3), {"a": deep_doc(120)}, deep_doc(101), deep_doc(100), {"a": [1, {"a": 2}], "b": {"a": [0]}},
+            # strings that look like JSON / like queries: every entry point must treat them as strings
+            "42", "[1, 2, 3]", '{"a": 1}', "null", "true", '"s"', "$.a", " 1 ", "1e3", b"bytes".decode(), "[", ""]
     return _DOCS[tier]
 
 
@@ -164,6 +166,9 @@ def queries(desc):
         yield from INVALID
         yield "$..*"
         yield "$..[?@..a]"
+        yield "$"
+        yield "$[?@]"
+        yield "$[?@ == $[0]]"
 
 
 def run_shard(desc):
@@ -184,7 +189,7 @@ def run_shard(desc):
                 v = check_pair(q, doc)
                 if v:
                     sh.violation(v)
-            if desc["part"] == "invalid" and base[0] == "err" and q not in ("$..*", "$..[?@..a]"):
+            if desc["part"] == "invalid" and base[0] == "err" and q in INVALID:
                 break  # a compile-time error does not depend on the document: one document suffices
         sh.sample({"query": q, "paths": sorted(get_paths())[:3]}, limit=1)
     return sh
